@@ -87,11 +87,24 @@ def run_export(make_doc, method, stub_mode, pre, fault_at=None, fault_cls=Fault,
         sub = os.path.join("deep", "er") if pre == "missingdir" else ""
         ext = {"rtf": "rtf", "docx": "docx", "html": "html", "pdf": "pdf"}[method]
         target = os.path.join(box.out, sub, f"report.{ext}")
-        if pre == "exists":
-            with open(target, "wb") as f:
-                f.write(b"OLD-CONTENT")
         captured = []
         doc = make_doc(captured)
+        pre_bytes = None
+        if pre == "exists":
+            pre_bytes = b"OLD-CONTENT"
+        elif pre == "exists_binary":      # an old export in another encoding: not valid UTF-8
+            pre_bytes = b"\xff\xfeOLD\x80\x81 r\xe9sum\xe9"
+        elif pre in ("exists_same", "exists_same_crlf"):
+            # what an equal-valued document encodes to (identical, or the same text with CRLF line ends)
+            with contextlib.redirect_stdout(io.StringIO()):
+                try:
+                    same = make_doc([]).rtf_encode()
+                except Exception:  # noqa: BLE001
+                    same = "OLD"
+            pre_bytes = (same.replace("\n", "\r\n") if pre.endswith("crlf") else same).encode("utf-8")
+        if pre_bytes is not None:
+            with open(target, "wb") as f:
+                f.write(pre_bytes)
         stub = Stub(stub_mode) if stub_mode not in (None, "default") else None
         before = snapshot(box.root)
         n = [0]
@@ -129,7 +142,7 @@ def run_export(make_doc, method, stub_mode, pre, fault_at=None, fault_cls=Fault,
         after = snapshot(box.root)
         return {"result": res, "before": before, "after": after, "ncalls": n[0], "sites": sites, "captured": captured,
                 "stub_output": (b"CONVERTED:" + stub.seen_input) if stub is not None and stub.seen_input is not None else None,
-                "target_rel": os.path.relpath(target, box.root), "fired": fired}
+                "target_rel": os.path.relpath(target, box.root), "fired": fired, "pre_bytes": pre_bytes}
     finally:
         tempfile.tempdir = old_tmp
         box.close()
